@@ -17,7 +17,7 @@ one() { D=$1; S=/verif/neutral/$D
     echo "$D patch does not apply at HEAD"; git -C /repo worktree remove --force $WT; return; fi
   (cd $WT && go build ./... && go test -vet=off -count=1 ./emitter ./lexer ./parser > $S/suite.log 2>&1); SUITE=$?
   RES=""
-  for c in C01 C02 C03 C04 C05 C06 C07 C08 C09 C10 C11 C12 C13 C14 C15 C16 C17 C18 C19 C20; do
+  for c in ${NEUTRAL_CHECKS:-C01 C02 C03 C04 C05 C06 C07 C08 C09 C10 C11 C12 C13 C14 C15 C16 C17 C18 C19 C20}; do
     (cd $SNAP && VERIF_REPO=$WT VERIF_OUT=$OUTD timeout 1800 ./check $c --tier quick > /tmp/neutralrun/$D.$c.log 2>&1); rc=$?
     RES="$RES $c=$rc"
     [ $rc != 0 ] && cp /tmp/neutralrun/$D.$c.log $S/alarm.$c.log
@@ -27,7 +27,7 @@ one() { D=$1; S=/verif/neutral/$D
 import json,sys,os
 s,res,suite,head=sys.argv[1:5]
 runs={x.split('=')[0]:int(x.split('=')[1]) for x in res.split()}
-m={"kind":"neutral","suite_passes_with_change":suite=="0","checks_run":runs,"alarms":[k for k,v in runs.items() if v!=0],"head":head}
+m={"kind":"neutral","suite_passes_with_change":suite=="0",("checks_run" if len(runs)==20 else "checks_rerun"):runs,"alarms":[k for k,v in runs.items() if v!=0],"head":head}
 mp=os.path.join(s,'meta.json')
 if os.path.exists(mp):
     old=json.load(open(mp)); old.update(m); m=old
